@@ -9,9 +9,9 @@ CONSTANTS
   IdsIdentifyContent = TRUE
   IncOf <- MCIncOf
   StatusInc = 0
-  SearchOnlyWhenEmpty = FALSE
-  HostSpellsOddly = TRUE
-  FetchCanonicalises = TRUE
+  SearchOnlyWhenEmpty = TRUE
+  HostSpellsOddly = FALSE
+  FetchCanonicalises = FALSE
   PrunesOnStart = FALSE
   MaxKept = 1
   LocalNeedsIncarnationMatch = FALSE
@@ -21,7 +21,7 @@ CONSTANTS
   StateEarly = FALSE
   InitScenarios = {"fresh", "haskey"}
   InitDocs <- DocsV1
-  MaxReconf = 0
+  MaxReconf = 1
   MaxFaults = 2
   MaxCrash = 1
   MaxDamage = 1
